@@ -72,6 +72,7 @@ def run(pid, tier, seed, replay=None):
     known = [k for k in load_known() if k['property'] == pid and k.get('status') == 'open']
 
     # ------------------------------------------------------------ proof stage
+    coqrun.write_coqproject()
     theorems = coqrun.parse_props_file(P.props_file)
     bad = coqrun.scan_forbidden()
     rc, out, dt = coqrun.make_targets([P.props_file[:-2] + '.vo'] + getattr(P, 'extra_targets', []),
